@@ -245,6 +245,14 @@ func firstDiff(a, b []byte) int {
 	return -1
 }
 
+func payloadBytes(p uint64, n int) []byte {
+	b := make([]byte, n)
+	for i := range b {
+		b[i] = byte(p >> (8 * (uint(i) % 8)))
+	}
+	return b
+}
+
 func jsonStr(v any) string { b, _ := json.Marshal(v); return string(b) }
 
 // traceSink writes RecvLoopTrace cases up to a line budget.
@@ -289,5 +297,47 @@ func (s *traceSink) put(id int, m0, cap0 int, frames []Frame, evs []map[string]a
 func (s *traceSink) close() {
 	if s.f != nil {
 		s.f.Close()
+	}
+}
+
+// Violation / Report: the engine report format of the brief (same shape as harness/srvh.Report).
+type Violation struct {
+	Key    string `json:"key"`
+	What   string `json:"what"`
+	Replay any    `json:"replay"`
+}
+
+type Report struct {
+	Engine       string         `json:"engine"`
+	Cases        int            `json:"cases"`
+	Distinct     int            `json:"distinct"`
+	Samples      []any          `json:"samples"`
+	Violations   []Violation    `json:"violations"`
+	Inconclusive []string       `json:"inconclusive"`
+	Stats        map[string]any `json:"stats"`
+}
+
+func newReport(engine string) *Report {
+	return &Report{Engine: engine, Samples: []any{}, Violations: []Violation{}, Inconclusive: []string{}, Stats: map[string]any{}}
+}
+
+func (r *Report) Write() error {
+	p := os.Getenv("VERIF_OUT")
+	if p == "" {
+		return nil
+	}
+	b, err := json.Marshal(r)
+	if err != nil {
+		return err
+	}
+	return os.WriteFile(p, b, 0o644)
+}
+
+// progress records the case about to be executed, so that a crash of the process (a panic in a
+// goroutine of the library) can be attributed to it by lib/checks/c13.py.
+func progress(v any) {
+	if p := os.Getenv("VERIF_PROGRESS"); p != "" {
+		b, _ := json.Marshal(v)
+		_ = os.WriteFile(p, b, 0o644)
 	}
 }
